@@ -23,7 +23,8 @@ RULE = ("scenes from the seed (generator of C10 with boundary pairs pml, periodi
         "model `fwd r` / `fwd c`; forward() from a complex state on the complex placement vs `fwd c`; direct calls of "
         "_tfsf_inject_E_face/_tfsf_inject_H_face (real fields/real profile = complex fields/real profile = real fields/"
         "complex-typed profile with zero imaginary part; genuinely complex profile vs model incidentComponent). "
-        "One more oracle-only scene per run (thorough: 3): a ModePlaneSource (tidy3d mode solver, 20x20 / 22x22 cross-section) "
+        "One scene per run (thorough: 4) has an electric and a magnetic point dipole INSIDE a lossy (damped Lorentz / Drude) "
+        "dispersive block and a plane source crossing it (oracle-only). One more oracle-only scene per run (thorough: 3): a ModePlaneSource (tidy3d mode solver, 20x20 / 22x22 cross-section) "
         "whose core is conductive AND Lorentz/Drude dispersive, with Field/Energy/PoyntingFlux detectors, real vs complex "
         "storage. non-trivial = the run ends with non-zero fields.")
 
@@ -135,8 +136,10 @@ def forward_parts(ctx, c, scr, scc):
     r2 = L._fwd(scr, objs_r, Y.with_state(scr, E0, H0, inv_eps=inv_eps, sig_e=sig_e), t, min(2, c["steps"] - t), sim=True)
     c2 = L._fwd(scc, objs_c, Y.with_state(scc, E0, H0, inv_eps=inv_eps, sig_e=sig_e), t, min(2, c["steps"] - t), sim=True)
     detail = detail or cmp_complex_real("forward() x2 E", c2[0], r2[0]) or cmp_complex_real("forward() x2 H", c2[1], r2[1])
-    if any(s["kind"] == "hard" for s in c["sources"]):
-        return detail      # a hard source overwrites fields: not an additive term, no model comparison
+    if any(s["kind"] == "hard" for s in c["sources"]) or c.get("dispersive"):
+        # a hard source overwrites fields (not an additive term); a dispersive block has ADE polarisation the Yee model
+        # does not have: no model comparison for these scenes
+        return detail
     # real placement vs real model
     rE, rH = L._fwd(scr, objs_r, Y.with_state(scr, E0, H0, inv_eps=inv_eps, sig_e=sig_e), t, 1, sim=False)
     mE, mH = Y.decode_fields(ctx.driver.ask(Y.request(scr, "fwd", E0, H0, inv_eps, inv_mu, sig_e, None, (jE, jH), 1)), c["shape"])
@@ -303,6 +306,7 @@ def one_case(ctx, c, sample=False):
     ctx.case(sample={k: c[k] for k in ("shape", "faces", "sources", "steps", "amp", "gradient", "seed")} if sample else None,
              nontrivial=(tuple(c["shape"]), c["seed"]) if info.get("on") else None, n_sources=len(c["sources"]),
              grid="nonuniform" if c["widths"] else "uniform", gradient=str(c["gradient"]), sig_e=c["sig_e"], tfsf_cells=ntf,
+             dispersive=(c["dispersive"]["kind"] if c.get("dispersive") else "no"),
              **{"src_" + s["kind"]: True for s in c["sources"]}, **{"face_" + k: True for k in kinds},
              **{"det_%s_%s%s" % (d["kind"], "reduced" if d["reduce"] else "full", "_exact" if d["exact"] else ""): True for d in c["detectors"]})
     ctx.impl_property_evals += 3
@@ -325,6 +329,20 @@ FORCED = [
 ]
 
 
+def dispersive_forced(seed, k=0):
+    """electric and magnetic point dipoles INSIDE a lossy (damped Lorentz / Drude) dispersive block, and a plane source
+    crossing the block; every detector kind; real vs complex storage"""
+    kind = "lorentz" if (seed + k) % 2 == 0 else "drude"
+    return dict(shape=[5, 5, 8], pml_thickness=2, widths=None, steps=8, gradient=None, sig_e=False,
+                faces={"min_x": "periodic", "max_x": "periodic", "min_y": "periodic" if k % 2 == 0 else "pec",
+                       "max_y": "periodic" if k % 2 == 0 else "pec", "min_z": "pml", "max_z": "pml"},
+                dispersive={"kind": kind, "pos": [1, 1, 3], "size": [3, 3, 2], "gamma": 4.0e14, "w0": 5.0e15, "wp": 3.0e15, "de": 2.0},
+                sources=[{"kind": "dipole_e", "axis": 0, "direction": "+", "profile": "cw", "switch": "default", "pol": (seed + k) % 3, "pos": [2, 2, 3]},
+                         {"kind": "dipole_m", "axis": 0, "direction": "+", "profile": "pulse", "switch": "default", "pol": (seed + k + 1) % 3, "pos": [2, 3, 4]},
+                         {"kind": "uniform" if (seed + k) % 2 == 0 else "gauss", "axis": 2, "direction": "+", "profile": "cw", "switch": "default",
+                          "pol": 0, "pos": [2, 2, 4]}])
+
+
 def run(ctx):
     n = ctx.scale(2, 14)
     cases = [gen_case(ctx.rng, ctx.thorough, f) for f in FORCED[:n]]
@@ -332,6 +350,9 @@ def run(ctx):
         cases.append(gen_case(ctx.rng, ctx.thorough))
     if not ctx.thorough and ctx.seed != 0:
         cases[1] = gen_case(ctx.rng, False)
+    cases.append(gen_case(ctx.rng, ctx.thorough, dispersive_forced(ctx.seed)))
+    for k in range(1, ctx.scale(1, 4)):
+        cases.append(gen_case(ctx.rng, ctx.thorough, dispersive_forced(ctx.seed, k)))
     for i, c in enumerate(cases):
         one_case(ctx, c, sample=i < 2)
     try:
